@@ -1,8 +1,19 @@
 (* C14 — Type descriptors describe query types faithfully and uniquely.
    Statements only; each is closed by [exact] of a lemma of Proofs.v and followed by
-   Print Assumptions (audited by the check on every run). *)
+   Print Assumptions (audited by the check on every run).
+
+   Vocabulary.  Model.v: [describe H c t] = sertypes.describe on the type term t under
+   configuration c (protocol generation, inline_typenames, follow_links, name_filter), with
+   H = uuid5(TYPE_ID_NAMESPACE, .); [parse c b] = sertypes.parse; [ser]/[parse_desc] = one
+   descriptor record.  Spec.v: [tid H c t] the content-derived id as a pure function of the
+   term; [expect H c z t] the description a faithful descriptor decodes to (names, element
+   order, cardinalities, element types, tuple/array/range structure, enum labels, and in
+   protocol >= 2 names/ancestors/object types/sources); z is the stream's first descriptor,
+   which is where the meaningless source index 0 of free-shape elements points.
+   Proofs.v: [Reach c t e] = e is an entity (scalar, object type, type, set-of type) that can
+   get a descriptor while t is described.  ProofsInj.v: [skel], [all_ok], [conf]. *)
 From Coq Require Import List NArith Bool.
-From Verif.C14 Require Import Gen_Tags Model ProofsBytes Proofs.
+From Verif.C14 Require Import Gen_Tags Model Spec ProofsBytes ProofsStr ProofsInj ProofsGraph Proofs.
 Import ListNotations.
 Open Scope N_scope.
 
@@ -22,3 +33,118 @@ Theorem C14_stream_parses : forall c ns bs,
                end.
 Proof. exact p_stream_parses. Qed.
 Print Assumptions C14_stream_parses.
+
+(* uuid5 (the model of uuidgen.uuid5 over SHA-1) always yields 16 bytes *)
+Theorem C14_uuid5_wf : forall s, wf_uuid (uuid5 s).
+Proof. exact p_uuid5_wf. Qed.
+Print Assumptions C14_uuid5_wf.
+
+(* the id returned for a type is a function of the type alone (not of what was emitted before) *)
+Theorem C14_root_id : forall H c t b i, describe H c t = Ok (b, i) -> i = tid H c t.
+Proof. exact p_root_id. Qed.
+Print Assumptions C14_root_id.
+
+(* FAITHFUL: whenever describe succeeds, the repo's own decoder reads the stream back as
+   exactly the expected description of the type, and the returned id is the type's id;
+   for every type term and both protocol generations.  Hypotheses: no inline annotations in
+   protocol < 2 (parse() cannot read them, see Refuted.v); among the entities reachable from
+   the type, ids determine descriptions and no entity has the id of an entity below it (both
+   hold when ids identify schema objects and the hash has no collisions/cycles on the strings
+   at hand: C14_id_injective); ids are 16 bytes and names valid UTF-8. *)
+Theorem C14_roundtrip : forall H c t b i,
+  inline_tn c && negb (v2 c) = false ->
+  (forall e1 e2 z, Reach c t e1 -> Reach c t e2 -> eid H c e1 = eid H c e2 ->
+                   eexp H c z e1 = eexp H c z e2) ->
+  (forall e, Reach c t e -> ~ In (eid H c e) (map (eid H c) (proper c e))) ->
+  (forall e, Reach c t e -> wf_ent H c e) ->
+  describe H c t = Ok (b, i) ->
+  i = tid H c t /\ exists z, parse c b = Some (expect H c z t).
+Proof. exact p_roundtrip. Qed.
+Print Assumptions C14_roundtrip.
+
+(* under the same hypotheses every descriptor is emitted exactly once and is decodable *)
+Theorem C14_emitted_once : forall H c t i s,
+  inline_tn c && negb (v2 c) = false ->
+  (forall e1 e2 z, Reach c t e1 -> Reach c t e2 -> eid H c e1 = eid H c e2 ->
+                   eexp H c z e1 = eexp H c z e2) ->
+  (forall e, Reach c t e -> ~ In (eid H c e) (map (eid H c) (proper c e))) ->
+  (forall e, Reach c t e -> wf_ent H c e) ->
+  desc_ty H c t st0 = Ok (i, s) ->
+  NoDup (map node_id (nodes s)) /\ Forall (wf_node c) (nodes s).
+Proof. exact p_emitted_once. Qed.
+Print Assumptions C14_emitted_once.
+
+(* protocol >= 2: every descriptor carries its own length *)
+Theorem C14_v2_lengths : forall c n b, v2 c = true -> ser c n = Some b ->
+  exists body, ser_body c n = Some body /\ b = word_bytes (len body) ++ body /\ len body < M32.
+Proof. exact p_v2_lengths. Qed.
+Print Assumptions C14_v2_lengths.
+
+(* UNIQUE, string level: the string hashed for a collection id determines the kind, the
+   element type ids and the element names — provided names contain neither NUL nor ':' *)
+Theorem C14_idstr_collection : forall k1 k2 subs1 subs2 n1 n2,
+  nonul k1 -> nonul k2 -> Forall wf_uuid subs1 -> Forall wf_uuid subs2 ->
+  (forall l, n1 = Some l -> length l = length subs1 /\ Forall okname l) ->
+  (forall l, n2 = Some l -> length l = length subs2 /\ Forall okname l) ->
+  coll_idstr k1 subs1 n1 = coll_idstr k2 subs2 n2 ->
+  k1 = k2 /\ subs1 = subs2 /\ names_norm n1 = names_norm n2.
+Proof. exact p_idstr_collection. Qed.
+Print Assumptions C14_idstr_collection.
+
+(* ... and the string hashed for a shape id determines base type name, element type ids,
+   names, cardinalities, implicit-id flag, link-property and link flags *)
+Theorem C14_idstr_shape : forall b1 b2 subs1 subs2 nm1 nm2 cd1 cd2 i1 i2 lp1 lp2 lk1 lk2,
+  nonul b1 -> nonul b2 -> Forall wf_uuid subs1 -> Forall wf_uuid subs2 ->
+  Forall okname nm1 -> Forall okname nm2 -> Forall okcard cd1 -> Forall okcard cd2 ->
+  length nm1 = length subs1 -> length cd1 = length subs1 ->
+  length nm2 = length subs2 -> length cd2 = length subs2 ->
+  (forall l, lp1 = Some l -> length l = length subs1) ->
+  (forall l, lp2 = Some l -> length l = length subs2) ->
+  (forall l, lk1 = Some l -> length l = length subs1) ->
+  (forall l, lk2 = Some l -> length l = length subs2) ->
+  shape_idstr b1 subs1 nm1 cd1 i1 lp1 lk1 = shape_idstr b2 subs2 nm2 cd2 i2 lp2 lk2 ->
+  b1 = b2 /\ subs1 = subs2 /\ nm1 = nm2 /\ cd1 = cd2 /\ i1 = i2 /\ lp1 = lp2 /\ lk1 = lk2.
+Proof. exact p_idstr_shape. Qed.
+Print Assumptions C14_idstr_shape.
+
+(* UNIQUE, type level: structurally different types get different ids.  For any hash H with
+   16-byte outputs, default options (no name filter, links followed): if H has no collision
+   among the strings hashed for the two types (Sset), no hashed id equals a given schema id
+   (Gset) and a scalar id identifies one scalar type (ScSet), then equal ids imply equal
+   skeletons (names, order, cardinalities, element types, collection structure, enum labels
+   via the scalar).  [all_ok] also requires names free of NUL and ':' and base type names
+   different from the collection kinds: Refuted.v shows the ':' condition is necessary. *)
+Theorem C14_id_injective : forall H : str -> uuid, (forall s, wf_uuid (H s)) ->
+  forall c, flt c = [] -> follow c = true ->
+  forall (Sset : str -> Prop) (Gset : uuid -> Prop) (ScSet : scalar -> Prop),
+  (forall a b, Sset a -> Sset b -> H a = H b -> a = b) ->
+  (forall s g, Sset s -> Gset g -> H s <> g) ->
+  Gset ID_EMPTY_TUPLE ->
+  (forall a b, ScSet a -> ScSet b -> sid a = sid b -> a = b) ->
+  forall t1, all_ok H c Sset Gset ScSet t1 -> forall t2, all_ok H c Sset Gset ScSet t2 ->
+  tid H c t1 = tid H c t2 -> skel t1 = skel t2.
+Proof. exact p_id_injective. Qed.
+Print Assumptions C14_id_injective.
+
+(* Equal ids imply byte-identical descriptors — when, in addition, the attributes that never
+   enter an id are functions of what does ([conf]: one schema, in which a collection id
+   determines the collection's schema name and persistence, a type name its object type and a
+   shape id the sources of its elements).  Refuted.v shows that sertypes itself does not
+   guarantee [conf]: element sources and collection names can differ under one id. *)
+Theorem C14_id_functional : forall H, (forall s, wf_uuid (H s)) ->
+  forall c, flt c = [] -> follow c = true ->
+  forall (Sset : str -> Prop) (Gset : uuid -> Prop) (ScSet : scalar -> Prop) (env : senv),
+  (forall a b, Sset a -> Sset b -> H a = H b -> a = b) ->
+  (forall s g, Sset s -> Gset g -> H s <> g) ->
+  Gset ID_EMPTY_TUPLE ->
+  (forall a b, ScSet a -> ScSet b -> sid a = sid b -> a = b) ->
+  forall t1 t2,
+  all_ok H c Sset Gset ScSet t1 -> all_ok H c Sset Gset ScSet t2 ->
+  conf H c env t1 -> conf H c env t2 ->
+  tid H c t1 = tid H c t2 -> t1 = t2 /\ describe H c t1 = describe H c t2.
+Proof. exact p_id_functional. Qed.
+Print Assumptions C14_id_functional.
+
+(* Non-vacuity: theories/C14/PropsExamples.v instantiates the hypotheses of C14_roundtrip and of
+   C14_id_injective / C14_id_functional with the real hash (uuid5 over SHA-1 computed inside Coq)
+   on concrete nested types; Refuted.v shows which hypotheses cannot be dropped. *)
